@@ -360,7 +360,7 @@ def install(ctx):
 def run(ctx):
     install(ctx)
     thorough = ctx.tier == "thorough"
-    n = 5000 if thorough else 160
+    n = 40000 if thorough else 160
     ci = 0
     for j in range(n):
         ci += 1
